@@ -62,7 +62,7 @@ def main():
     res = {}
     for pid in checks:
         r = sh([str(VERIF / "check"), pid, "--no-evidence", "--tier", a.tier], env={"FLOWDYN_REPO": str(wt)}, cwd=str(VERIF))
-        keys = [ln.split("key=")[1].split()[0] for ln in r.stdout.splitlines() if ln.startswith("VIOLATION") and "key=" in ln]
+        keys = [ln.split("key=")[1].split()[0] for ln in r.stdout.splitlines() if ln.startswith("  detail: key=")]
         res[pid] = {"exit": r.returncode, "keys": keys[:5]}
         print("  %s exit=%d %s" % (pid, r.returncode, keys[:2]), flush=True)
     out["checks_run"] = {"how": "FLOWDYN_REPO=<worktree with the change> ./check <id> --tier %s (VERIF_SEED=%s)" % (a.tier, os.environ.get("VERIF_SEED", "0")), "results": res}
